@@ -507,3 +507,81 @@ def standard_replay(mod, path):
     print("implementation output:", out)
     print("oracle:", why or "property holds on this case")
     return 1 if why else 0
+
+
+# --------------------------------------------------------------------------- numpy RNG recorder
+
+class RngRecorder:
+    """Wrap numpy.random.{randint,choice,shuffle} (module-level functions DnaChisel calls) and
+    record every request with its answer.  events: ("int", n, v) | ("choice", n, k, [i...]) |
+    ("ints", n, size, [v...]) | ("shuffle", n, [perm...])"""
+
+    def __init__(self):
+        self.events = []
+
+    def __enter__(self):
+        import numpy as np
+        self.np = np
+        self.orig = (np.random.randint, np.random.choice, np.random.shuffle)
+        rec = self
+
+        def randint(low, high=None, size=None, dtype=int):
+            r = rec.orig[0](low, high, size)
+            n = low if high is None else high - low
+            if size is None:
+                rec.events.append(("int", int(n), int(r) - (0 if high is None else int(low))))
+            else:
+                rec.events.append(("ints", int(n), int(size), [int(x) for x in r]))
+            return r
+
+        def choice(a, size=None, replace=True, p=None):
+            r = rec.orig[1](a, size, replace, p)
+            if isinstance(a, int) and size is not None and p is None:
+                rec.events.append(("choice", int(a), int(size), [int(x) for x in r]))
+            else:
+                rec.events.append(("choice_other", repr(a)[:40], size))
+            return r
+
+        def shuffle(x):
+            before = list(x)
+            rec.orig[2](x)
+            rec.events.append(("shuffle", len(before)))
+
+        np.random.randint, np.random.choice, np.random.shuffle = randint, choice, shuffle
+        return self
+
+    def __exit__(self, *a):
+        np = self.np
+        np.random.randint, np.random.choice, np.random.shuffle = self.orig
+        return False
+
+    def stream(self):
+        """answers as the Coq oracle stream (list of lists) and the request log"""
+        ans, log = [], []
+        for e in self.events:
+            if e[0] == "int":
+                ans.append([e[2]])
+                log.append(("int", e[1]))
+            elif e[0] == "choice":
+                ans.append(list(e[3]))
+                log.append(("choice", e[1], e[2]))
+            else:
+                ans.append([])
+                log.append(("other",))
+        return ans, log
+
+
+def cstream(ans):
+    return clist([clist([cz(v) for v in a]) for a in ans])
+
+
+def clog(log):
+    out = []
+    for e in log:
+        if e[0] == "int":
+            out.append("RInt %s" % cz(e[1]))
+        elif e[0] == "choice":
+            out.append("RChoice %s %s" % (cz(e[1]), cz(e[2])))
+        else:
+            out.append("RInt (-1)%Z")
+    return clist(out)
